@@ -80,7 +80,7 @@ class PDFParser(PSStackParser[Union[PSKeyword, PDFStream, PDFObjRef, None]]):
             objlen = 0
             if not self.fallback:
                 try:
-                    objlen = int_value(dic["Length"])
+                    objlen = max(0, int_value(dic["Length"]))
                 except KeyError:
                     if settings.STRICT:
                         raise PDFSyntaxError("/Length is undefined: %r" % dic)
